@@ -40,6 +40,7 @@ OBLIGATIONS = [
     "VgiVerif.C22.C22_require_uniform",
     "VgiVerif.C22.C22_allow_reports",
     "VgiVerif.C22.C22_minted_accepted",
+    "VgiVerif.C22.C22_ok_claims",
 ]
 TRUSTED = [
     "HMAC-SHA256 is a parameter of model and spec (the harness computes digests with the real hmac and hands the model a table)",
